@@ -21,12 +21,13 @@ import cxx2lean
 SPECS = {
     'C06': {
         'id': 'C06',
-        'extra_filters': ['EPSILON'],      # anonymous-namespace constant
-        'sources': ['src/regression/ransac/RansacIterations.cpp'],
+        'extra_filters': ['EPSILON', 'MAXIMAL_NUMBER_OF_ITERATIONS'],      # anonymous-namespace constants
+        'sources': ['src/regression/ransac/RansacIterations.cpp', 'src/regression/ransac/Ransac.cpp'],
+        'abstract_classes': ['RansacModel'],      # the virtual RansacModel calls of estimateModel thread an abstract model state σ
         'imports': ['RomeaModel.Rotation'],       # DoubleConv: the constructor takes `const float & fittingProbability`
         'opens': ['Romea.Rotation'],
         'functions': [{'cxx': 'RansacIterations::RansacIterations'}, {'cxx': 'RansacIterations::update'},
-                      {'cxx': 'RansacIterations::get'}],
+                      {'cxx': 'RansacIterations::get'}, {'cxx': 'Ransac::estimateModel'}],
     },
 }
 
